@@ -283,6 +283,25 @@ def replay(ob):
             fails.append({"sg": sg, "observed": "%s: %s" % (type(e).__name__, str(e)[:200])})
         if len(fails) >= 3:
             break
+    # one analyzer used for several crystals in turn gives what a fresh analyzer gives
+    try:
+        a = tr.analyze(tr.pinned_probe(221, npin=1))
+        a.get_wyckoff_letters_original(); a.get_wyckoff_letters_primitive(); a.get_equivalent_atoms_conventional()
+        for sg2 in (225, 65, 38):
+            b = tr.pinned_probe(sg2, npin=1).repeat((2, 1, 1))
+            b = b[list(np.random.default_rng(2).permutation(len(b)))]
+            a.set_system(b)
+            f = tr.analyze(b)
+            got = (list(map(str, a.get_wyckoff_letters_original())), list(map(str, a.get_wyckoff_letters_conventional())), list(map(int, a.get_equivalent_atoms_conventional())),
+                   list(map(str, a.get_wyckoff_letters_primitive())))
+            want = (list(map(str, f.get_wyckoff_letters_original())), list(map(str, f.get_wyckoff_letters_conventional())), list(map(int, f.get_equivalent_atoms_conventional())),
+                    list(map(str, f.get_wyckoff_letters_primitive())))
+            if got != want:
+                fails.append({"sg": sg2, "observed": "an analyzer that analysed another crystal before (set_system) reports other letters / orbit labels than a fresh analyzer"})
+                return {"reproduced": True, "failing_inputs": fails[:3]}
+    except Exception as e:  # noqa
+        fails.append({"observed": "set_system on a used analyzer: %s: %s" % (type(e).__name__, str(e)[:200])})
+        return {"reproduced": True, "failing_inputs": fails[:3]}
     # two species on letters that a normalizer exchanges: the per-atom letters of the three descriptions must stay consistent
     import collections
     import itertools
